@@ -130,7 +130,8 @@ def tlc(module, cfg=None, *, cwd=None, workers=1, simulate=None, depth=None, see
     Raises ToolError on parse errors, TLC crashes and timeouts (never a VIOLATION)."""
     if cwd is None:
         cwd = SPEC
-    tag = "%s-%d-%d" % (os.path.basename(module), os.getpid(), int(time.time() * 1000) % 100000000)
+    import uuid
+    tag = "%s-%d-%s" % (os.path.basename(module), os.getpid(), uuid.uuid4().hex[:12])   # unique even for concurrent runs
     meta = os.path.join(WORK, "tlc", tag)
     os.makedirs(meta, exist_ok=True)
     # few GC / JIT threads: on a loaded 16-core box the default 13+ GC threads make a 2 s run take 12 s
